@@ -55,6 +55,12 @@ type target struct {
 	Optional bool     `json:"optional"` // build failure => inconclusive part, not a broken run
 	Tiers    []string `json:"tiers"`    // empty = both
 	Env      []string `json:"env"`
+	// schedule amplifier (amp.go): go-zero package dirs whose synchronisation points get a
+	// random yield in a second binary; AmpShards = number of EXTRA children run with it
+	// (they repeat shards 0..AmpShards-1 of the case list under widened interleavings).
+	Amplify   []string `json:"amplify"`
+	AmpShards tierInt  `json:"amp_shards"`
+	AmpRate   int      `json:"amp_rate"` // yield at about 1 in AmpRate visits (default 6)
 }
 
 type floor struct {
@@ -193,7 +199,9 @@ func run(id, tier, replay string) int {
 	type built struct {
 		t   target
 		bin string
+		amp bool
 	}
+	ampInfo := map[string]int64{}
 	var bins []built
 	var inconclusive []string
 	for i, t := range cfg.Targets {
@@ -204,7 +212,7 @@ func run(id, tier, replay string) int {
 			continue
 		}
 		bin := filepath.Join(scratch, fmt.Sprintf("t%d.test", i))
-		if msg, err := build(t, bin, scratch, i); err != nil {
+		if msg, err := build(t, bin, scratch, i, nil); err != nil {
 			if t.Optional {
 				inconclusive = append(inconclusive, fmt.Sprintf("target %s did not build (internals renamed?): %s", t.Name, firstLines(msg, 6)))
 				fmt.Printf("INCONCLUSIVE property=%s target=%s build failed\n", id, t.Name)
@@ -213,7 +221,23 @@ func run(id, tier, replay string) int {
 			fmt.Println(msg)
 			return broken("build of target %s failed", t.Name)
 		}
-		bins = append(bins, built{t, bin})
+		bins = append(bins, built{t, bin, false})
+		if len(t.Amplify) > 0 && t.AmpShards.get(tier) > 0 && replay == "" {
+			ov, files, points, skipped := ampOverlay(t.Amplify, filepath.Join(scratch, fmt.Sprintf("amp%d", i)))
+			abin := filepath.Join(scratch, fmt.Sprintf("t%da.test", i))
+			if msg, err := build(t, abin, scratch, i, ov); err != nil {
+				// the amplified variant is an extra: its failure to build is recorded, never a verdict
+				inconclusive = append(inconclusive, fmt.Sprintf("target %s: amplified variant did not build: %s", t.Name, firstLines(msg, 8)))
+				fmt.Printf("INCONCLUSIVE property=%s target=%s amplified build failed\n", id, t.Name)
+			} else {
+				bins = append(bins, built{t, abin, true})
+				ampInfo["amp_files_instrumented"] += int64(files)
+				ampInfo["amp_sync_points_instrumented"] += int64(points)
+			}
+			for _, sk := range skipped {
+				inconclusive = append(inconclusive, "amplifier skipped "+sk)
+			}
+		}
 	}
 	if len(bins) == 0 {
 		return broken("nothing to run")
@@ -240,17 +264,23 @@ func run(id, tier, replay string) int {
 		if replay != "" {
 			shards = 1
 		}
+		nrun := shards
+		if bt.amp {
+			nrun = bt.t.AmpShards.get(tier)
+			ampInfo["amp_children"] += int64(nrun)
+		}
 		to := bt.t.TimeoutS.get(tier)
 		if to <= 0 {
 			to = 600
 		}
-		for s := 0; s < shards; s++ {
+		for s := 0; s < nrun; s++ {
 			wg.Add(1)
 			go func(bt built, s, shards, to int) {
 				defer wg.Done()
 				sem <- struct{}{}
 				defer func() { <-sem }()
 				tag := fmt.Sprintf("%s.%d", filepath.Base(bt.bin), s)
+				s = s % shards
 				r := shardRes{target: bt.t.Name,
 					out:  filepath.Join(scratch, tag+".jsonl"),
 					log:  filepath.Join(scratch, tag+".log"),
@@ -272,6 +302,13 @@ func run(id, tier, replay string) int {
 					env = append(env, "VERIF_ONLY="+only.Family+"/"+strconv.Itoa(only.Index))
 				}
 				env = append(env, bt.t.Env...)
+				if bt.amp {
+					rate := bt.t.AmpRate
+					if rate <= 0 {
+						rate = 6
+					}
+					env = append(env, "VERIF_AMP="+strconv.Itoa(rate))
+				}
 				cmd.Env = env
 				lf, _ := os.Create(r.log)
 				cmd.Stdout, cmd.Stderr = lf, lf
@@ -409,6 +446,10 @@ func run(id, tier, replay string) int {
 			brokenRun = true
 			harnessErrors = append(harnessErrors, fmt.Sprintf("%s: test binary exit: %v: %s", r.target, r.err, tail(r.log, 40)))
 		}
+	}
+
+	for k, v := range ampInfo {
+		obs[k] += v
 	}
 
 	// ---- race reports
@@ -570,7 +611,7 @@ func run(id, tier, replay string) int {
 	return 0
 }
 
-func build(t target, bin, scratch string, idx int) (string, error) {
+func build(t target, bin, scratch string, idx int, ampOv map[string]string) (string, error) {
 	var cmd *exec.Cmd
 	args := []string{"test", "-c", "-vet=off", "-tags", "verif", "-o", bin}
 	if !t.NoRace {
@@ -594,6 +635,12 @@ func build(t target, bin, scratch string, idx int) (string, error) {
 			}
 			args = append(args, "-modfile="+mf)
 		}
+		if ampOv != nil {
+			ob, _ := json.Marshal(map[string]any{"Replace": ampOv})
+			ovPath := filepath.Join(scratch, fmt.Sprintf("ampoverlay%d.json", idx))
+			os.WriteFile(ovPath, ob, 0o644)
+			args = append(args, "-overlay", ovPath)
+		}
 		args = append(args, t.Pkg)
 		cmd = exec.Command("go", args...)
 		cmd.Dir = dir
@@ -610,8 +657,13 @@ func build(t target, bin, scratch string, idx int) (string, error) {
 		for _, f := range t.Files {
 			ov[filepath.Join(pkgDir, filepath.Base(f))] = filepath.Join(verifDir, f)
 		}
+		name := "overlay"
+		for k, v := range ampOv {
+			ov[k] = v
+			name = "overlayamp"
+		}
 		ob, _ := json.Marshal(map[string]any{"Replace": ov})
-		ovPath := filepath.Join(scratch, fmt.Sprintf("overlay%d.json", idx))
+		ovPath := filepath.Join(scratch, fmt.Sprintf("%s%d.json", name, idx))
 		os.WriteFile(ovPath, ob, 0o644)
 		args = append(args, "-overlay", ovPath, "./"+strings.TrimPrefix(t.Pkg, "./"))
 		cmd = exec.Command("go", args...)
